@@ -257,7 +257,10 @@ def main():
                 diffs.append("productions differ")
             res["tables_in_use"] = diffs
         except BaseException as e:  # noqa
-            res["tables_in_use"] = ["could not inspect: %r" % (e,)]
+            # the parser object does not expose PLY's tables in the usual place / shape: nothing to compare (a probe in the
+            # evidence, never an alarm)
+            res["tables_in_use"] = None
+            res["tables_in_use_note"] = "could not inspect: %r" % (e,)
     if os.environ.get("VERIF_DEBUG_TORN") and res.get("ctor_exc") and "SyntaxError" in str(res["ctor_exc"]):
         import shutil, subprocess, time as _t
         d = "/dev/shm/torn-%d" % os.getpid()
